@@ -183,47 +183,63 @@ class TokenizerAnalysis:
         I = s.I
         reach = s.reachable_methods()
         s.reach = reach
-        stores = {}
+        stores = {}          # field -> list of value AST nodes (None = unknown value), ('aug', node) for augmented assignments
+        bool_params = set()
         for mn in reach:
-            for n in ast.walk(I.methods[mn]):
-                tg = []
+            m = I.methods[mn]
+            a = m.args
+            for arg, dflt in zip(a.args[len(a.args) - len(a.defaults):], a.defaults):
+                if isinstance(dflt, ast.Constant) and isinstance(dflt.value, bool):
+                    bool_params.add((mn, arg.arg))
+            for n in ast.walk(m):
+                pairs = []
                 if isinstance(n, ast.Assign):
-                    tg = list(n.targets)
+                    for t in n.targets:
+                        if isinstance(t, (ast.Tuple, ast.List)):
+                            if isinstance(n.value, (ast.Tuple, ast.List)) and len(n.value.elts) == len(t.elts):
+                                pairs += list(zip(t.elts, n.value.elts))
+                            else:
+                                pairs += [(e, None) for e in t.elts]
+                        else:
+                            pairs.append((t, n.value))
                 elif isinstance(n, ast.AugAssign):
-                    tg = [n.target]
-                flat = []
-                for t in tg:
-                    if isinstance(t, (ast.Tuple, ast.List)):
-                        flat += [(e, None) for e in t.elts]
-                    else:
-                        flat.append((t, n))
-                for t, node in flat:
+                    pairs.append((n.target, ('aug', n)))
+                for t, v in pairs:
                     if isinstance(t, ast.Attribute) and isinstance(t.value, ast.Name) and t.value.id == 'self':
-                        stores.setdefault(t.attr, []).append(node)
-        s.stores = stores
+                        stores.setdefault(t.attr, []).append((mn, v))
+        s.stores = {f: [v for _, v in vs] for f, vs in stores.items()}
+
+        def is_boolish(mn, v):
+            if isinstance(v, ast.Constant) and isinstance(v.value, bool):
+                return True
+            if isinstance(v, (ast.Compare, ast.BoolOp)) or (isinstance(v, ast.UnaryOp) and isinstance(v.op, ast.Not)):
+                return True
+            if isinstance(v, ast.Call) and isinstance(v.func, ast.Name) and v.func.id == 'bool' and len(v.args) == 1:
+                return True
+            if isinstance(v, ast.Name) and (mn, v.id) in bool_params:
+                return True
+            if isinstance(v, ast.IfExp):
+                return is_boolish(mn, v.body) and is_boolish(mn, v.orelse)
+            return False
 
         def kind(f):
-            nodes = stores[f]
-            if any(n is None for n in nodes):
+            items = stores[f]
+            vals = [(mn, v) for mn, v in items if not (isinstance(v, tuple) and v[0] == 'aug')]
+            aug = any(isinstance(v, tuple) and v[0] == 'aug' for _, v in items)
+            if any(v is None for _, v in vals):
                 return 'int'
-            vals = [n.value for n in nodes if isinstance(n, ast.Assign)]
-            aug = any(isinstance(n, ast.AugAssign) for n in nodes)
-            if vals and all(isinstance(v, ast.Constant) and isinstance(v.value, bool) for v in vals) and not aug:
+            if vals and not aug and all(is_boolish(mn, v) for mn, v in vals):
                 return 'bool'
-            if vals and all(isinstance(v, ast.Attribute) and v.attr in I.consts for v in vals) and not aug:
+            if vals and all(isinstance(v, ast.Attribute) and v.attr in I.consts for _, v in vals) and not aug:
                 return 'enum'
-            if any(isinstance(v, ast.List) or (isinstance(v, ast.Call) and isinstance(v.func, ast.Name) and v.func.id == 'list') for v in vals):
+            if any(isinstance(v, ast.List) or (isinstance(v, ast.Call) and isinstance(v.func, ast.Name) and v.func.id == 'list') for _, v in vals):
                 return 'list'
-            if any(isinstance(v, ast.Subscript) and isinstance(v.slice, ast.Slice) for v in vals):
+            if any(isinstance(v, ast.Subscript) and isinstance(v.slice, ast.Slice) for _, v in vals):
                 return 'list'
-            if vals and all(isinstance(v, ast.Attribute) and isinstance(v.value, ast.Name) and v.value.id == 'self' and v.attr in I.methods for v in vals):
+            if vals and all(isinstance(v, ast.Attribute) and isinstance(v.value, ast.Name) and v.value.id == 'self' and v.attr in I.methods for _, v in vals):
                 return 'other'
-            if vals and all(isinstance(v, ast.Constant) and v.value is None for v in vals):
+            if vals and all(isinstance(v, ast.Constant) and v.value is None for _, v in vals):
                 return 'other'
-            # booleans assigned from boolean-valued locals / parameters (e.g. self.flag = truncated)
-            if vals and not aug and all(isinstance(v, (ast.Constant, ast.Name, ast.Compare, ast.BoolOp)) or (isinstance(v, ast.UnaryOp) and isinstance(v.op, ast.Not)) for v in vals) \
-                    and any(isinstance(v, ast.Constant) and isinstance(v.value, bool) for v in vals):
-                return 'bool'
             return 'int'
         kinds = {f: kind(f) for f in stores}
         s.kinds = kinds
@@ -251,8 +267,8 @@ class TokenizerAnalysis:
         s.enum_vals = {}
         for f in enum_fields:
             vals = set()
-            for n in stores[f]:
-                vals.add(I.consts[n.value.attr])
+            for _, v in stores[f]:
+                vals.add(I.consts[v.attr])
             s.enum_vals[f] = sorted(vals)
         # units: the counter incremented once per loop iteration is a position
         counter = None
@@ -267,8 +283,8 @@ class TokenizerAnalysis:
             for f in s.intf:
                 if f in posf:
                     continue
-                for n in stores[f]:
-                    if isinstance(n, ast.Assign) and any(isinstance(x, ast.Attribute) and x.attr in posf for x in ast.walk(n.value)):
+                for _, v in stores[f]:
+                    if isinstance(v, ast.AST) and any(isinstance(x, ast.Attribute) and x.attr in posf for x in ast.walk(v)):
                         posf.add(f)
                         grew = True
         s.counter = counter
